@@ -994,30 +994,3 @@ theorem sublist_desc {l r : FIdx} (h : Desc l) (hs : r.Sublist l) : Desc r :=
   List.Pairwise.sublist hs h
 
 end Sod
-
-/-! ### axiom audit -/
-section Audit
-open Sod
-#print axioms new_wf
-#print axioms insertOrUpdate_wf
-#print axioms deleteByUUID_wf
-#print axioms reload_wf
-#print axioms reload_ids
-#print axioms control_of_wf
-#print axioms insertOrUpdate_uuids
-#print axioms insertOrUpdate_next_mono
-#print axioms insertOrUpdate_oidOf_stable
-#print axioms insertOrUpdate_uuidOf_stable
-#print axioms deleteByUUID_uuids
-#print axioms deleteByUUID_next
-#print axioms insertOrUpdate_total
-#print axioms insertOrUpdate_unique_iff
-#print axioms satisfyAll_unique_iff
-#print axioms new_reflects
-#print axioms insertOrUpdate_reflects
-#print axioms deleteByUUID_reflects
-#print axioms reload_reflects
-#print axioms searchOp_exact
-#print axioms searchOp_re_exact
-#print axioms sublist_desc
-end Audit
